@@ -72,7 +72,9 @@ BadTag2 == Body(Base) \o <<TAB>> \o <<88, 65, COLON, 81, COLON, A>>   \* unknown
 BadTag3 == Body(Base) \o <<TAB>> \o <<88, 65, COLON, 65, COLON, A, A>> \* A with two bytes
 BadTag4 == Body(Base) \o <<TAB>> \o <<88, 65, COLON, 105, COLON, A>>  \* i non-numeric
 BadTag5 == Body(Base) \o <<TAB>> \o <<88, 65, COLON, 72, COLON, 65, 66, 67>> \* H odd length
-LinePool == { H1, H2, Body(R1), Body(R2), Few, NoInt, NoInt2, BadTag1, BadTag2, BadTag3, BadTag4, BadTag5 }
+Blanks1 == <<TAB, TAB, TAB>>                                     \* not empty, nothing in it: malformed like any other line
+Blanks2 == <<SPACE>>
+LinePool == { H1, H2, Body(R1), Body(R2), Few, NoInt, NoInt2, BadTag1, BadTag2, BadTag3, BadTag4, BadTag5, Blanks1, Blanks2 }
 Expected(ln) == IF ln \in {H1, H2} THEN HdrItem(ln)
                 ELSE IF ln = Body(R1) THEN RecItem(R1) ELSE IF ln = Body(R2) THEN RecItem(R2) ELSE ERR
 Terms == { <<LF>>, <<CR, LF>>, <<LF, LF>>, <<LF, CR, LF>> }
